@@ -54,6 +54,27 @@ Theorem C10_path_bad_scalar_refused : forall sp ws x e s t p,
   exists err, extract_path sp ws = Err err /\ xerr_status err = Some 400.
 Proof. exact path_bad_scalar_refused. Qed.
 
+(* an ill-typed element in a wildcard variable's sequence (Vec<T>): ONE bad
+   element - first, middle or last, alone or among valid ones - fails the
+   whole extraction; the sequence is never cut short *)
+Theorem C10_sequence_bad_element_fails_whole : forall t l s,
+  In s l -> parse_scalar t s = None -> exists e, from_map_elems t l = Err e.
+Proof. exact from_map_elems_bad. Qed.
+
+Theorem C10_path_bad_sequence_element_refused : forall sp ws x es l s t,
+  wf_spec sp = true -> no_stub sp = true -> names_distinct (map fst ws) = true ->
+  In (x, WMany es) ws -> decode_segments es = Ok l -> In s l ->
+  assoc x sp = Some (KSeq t) -> parse_scalar t s = None ->
+  exists err, extract_path sp ws = Err err /\ xerr_status err = Some 400.
+Proof. exact path_bad_seq_element_refused. Qed.
+
+(* and what a handler does get is, element by element, the parse of the
+   decoded segment at that position *)
+Theorem C10_sequence_field_sound : forall t l v,
+  from_map_field (KSeq t) (VMany l) = Ok v ->
+  exists xs, v = FvSeq xs /\ Forall2 (fun s x => parse_scalar t s = Some x) l xs.
+Proof. exact seq_field_sound. Qed.
+
 (* out-of-range numbers and unknown enum variants ARE unparsable scalars *)
 Theorem C10_out_of_range_unparsable : forall sg bits z,
   int_in_range sg bits z = false -> parse_scalar (TInt sg bits) (print_int z) = None.
@@ -168,6 +189,17 @@ Example C10_ex_query :
   extract_query sp (Some [118; 61; 50; 53; 53]) = Ok [FvOne (VInt 255)].
 Proof. vm_compute. repeat split. Qed.
 
+(* /colors/Red/purple/green and /colors/purple for {rest: Vec<Color>}: refused, not cut short *)
+Example C10_ex_typed_wildcard :
+  let colors := [[82;101;100]; [103;114;101;101;110]] in
+  extract_path [([114], KSeq (TEnum colors))]
+               [([114], WMany [[82;101;100]; [112;117;114;112;108;101]; [103;114;101;101;110]])]
+  = Err (XBadPath MUnknownVariant) /\
+  extract_path [([114], KSeq (TEnum colors))] [([114], WMany [[112;117;114;112;108;101]])]
+  = Err (XBadPath MUnknownVariant) /\
+  extract_path [([114], KSeq (TEnum colors))] [([114], WMany [])] = Ok [FvSeq []].
+Proof. vm_compute. repeat split. Qed.
+
 Example C10_ex_content_type :
   from_mime_type (mime_type_of [116; 101; 120; 116; 47; 112; 108; 97; 105; 110]) = None /\
   header_is_str [97; 195; 169] = false.
@@ -181,6 +213,9 @@ Print Assumptions C10_multipart_errors_400.
 Print Assumptions C10_extract3_errors_400.
 Print Assumptions C10_query_bad_scalar_refused.
 Print Assumptions C10_path_bad_scalar_refused.
+Print Assumptions C10_sequence_bad_element_fails_whole.
+Print Assumptions C10_path_bad_sequence_element_refused.
+Print Assumptions C10_sequence_field_sound.
 Print Assumptions C10_out_of_range_unparsable.
 Print Assumptions C10_unknown_variant_unparsable.
 Print Assumptions C10_query_missing_required_refused.
